@@ -279,6 +279,17 @@ example : lookup (run h1) nCBA 3 = some ⟨nA, 3, .FailedToLoad, 0, 30⟩ := by 
 example : ((1 : Nat), foldName nA) ≠ (1, foldName nBA) := by decide +kernel
 example : get (run (h1 ++ [.remove nBA 1])) nA 1 = some eA := by
   rw [C22_remove_keeps_others h1 nBA nA 1 1 (by decide +kernel)]; decide +kernel
+/-- hypotheses of the lookup frame theorems hold on a concrete catalog: removing c.b.a. (absent)
+    or a. in class 3 cannot change the lookup of c.b.a. in class 1, and removing b.a. — which *is*
+    the longest match of c.b.a. — is correctly excluded -/
+example : lookup (remove (run h1) nA 3).1 nCBA 1 = lookup (run h1) nCBA 1 :=
+  C22_remove_frame_lookup_unrelated _ (C22_invariant h1) nA nCBA 3 1 (by decide +kernel)
+example : (lookup (run h1) nCBA 1).map keyOf ≠ some (1, foldName nA) := by decide +kernel
+example : lookup (remove (run h1) nA 1).1 nCBA 1 = lookup (run h1) nCBA 1 :=
+  C22_remove_frame_lookup _ (C22_invariant h1) nA nCBA 1 1 (by decide +kernel)
+example : (lookup (run h1) nCBA 1).map keyOf = some (1, foldName nBA) := by decide +kernel
+example : lookup (remove (run h1) nBA 1).1 nCBA 1 = some eA := by decide +kernel
+
 example : IsLongestMatch (specRun h1) 1 (foldName nCBA) (some eBA) := by
   have := C22_lookup_longest h1 nCBA 1
   rwa [show lookup (run h1) nCBA 1 = some eBA by decide +kernel] at this
